@@ -259,6 +259,9 @@ class Runner:
                         v = pat.const_value(M.class_consts[k][node.attr])
                         if v is not None:
                             return v
+            got = self._derived_attr(base, node.attr)
+            if got is not NotImplemented:
+                return got
             plain = node.attr
             if not base._name.startswith("class:") and any(
                     plain in ms and ms[plain].kind == "method" for ms in self.ctx.model.methods.values()):
@@ -266,11 +269,82 @@ class Runner:
             raise Undecided(f"attribute {node.attr} of abstract object {base}")
         if isinstance(base, StandIn) and hasattr(base, node.attr):
             return getattr(base, node.attr)
+        if isinstance(base, StandIn):
+            got = self._derived_attr(base, node.attr)
+            if got is not NotImplemented:
+                return got
         if isinstance(base, StandIn) and not isinstance(getattr(node, "ctx", None), ast.Store) and any(
                 node.attr in ms and ms[node.attr].kind == "method" for ms in self.ctx.model.methods.values()):
             return ObjMethod(self, base, node.attr)              # e.g. self.__contains_simple in a dispatch table
         if isinstance(base, tuple) and hasattr(base, node.attr):
             return getattr(base, node.attr)
+        return NotImplemented
+
+    def _derived_attr(self, base, name):
+        """A stand-in is described by the public view of an object (`jordans=(curve,)`).  When the code reads a private
+        field or a private property the stand-in does not carry, and a property the stand-in *does* carry is defined by
+        the repository as a plain view of it -- `jordans` returning `(self._jordan,)`, `_jordan` returning
+        `self.__jordancurve` -- the value is recovered through that definition (followed through up to three getters)."""
+        have = dict(getattr(base, "__dict__", {}))
+        for k in dir(type(base)):
+            if not k.startswith("__") and k not in have:
+                try:
+                    v = getattr(base, k)
+                except Exception:      # noqa: BLE001
+                    continue
+                if not callable(v):
+                    have[k] = v
+        M = self.ctx.model
+        known = dict(have)
+        for _ in range(3):
+            grew = False
+            for cname, ms in M.methods.items():
+                for gname, g in ms.items():
+                    if g.kind != "getter" or gname not in known:
+                        continue
+                    body = [st for st in g.node.body if not (isinstance(st, ast.Expr) and isinstance(st.value, ast.Constant))]
+                    if len(body) != 1 or not isinstance(body[0], ast.Return) or body[0].value is None:
+                        continue
+                    e = body[0].value
+                    selfn = g.params[0] if g.params else "self"
+                    while isinstance(e, ast.Call) and isinstance(e.func, ast.Name) and e.func.id in ("tuple", "list") and len(e.args) == 1:
+                        e = e.args[0]
+                    val = known[gname]
+
+                    def field(x):
+                        if isinstance(x, ast.Attribute) and pat.is_name(x.value, selfn):
+                            return x.attr
+                        return None
+                    if field(e) is not None and field(e) not in known:
+                        known[field(e)] = val
+                        grew = True
+                    elif isinstance(e, (ast.Tuple, ast.List)) and len(e.elts) == 1 and field(e.elts[0]) is not None \
+                            and field(e.elts[0]) not in known:
+                        try:
+                            vs = list(val)
+                        except TypeError:
+                            continue
+                        if len(vs) == 1:
+                            known[field(e.elts[0])] = vs[0]
+                            grew = True
+            if name in known:
+                return known[name]
+            if not grew:
+                break
+        # a private property of the repository read on a stand-in that carries its backing field: run the getter
+        getters = [g for ms in M.methods.values() for gname, g in ms.items() if gname == name and g.kind == "getter"]
+        kind = getattr(base, "kind", None)
+        if kind is not None:
+            mine = [g for g in getters if g.cls in M.mro(kind)] if kind in M.classes else []
+            getters = mine or getters
+        if len(getters) == 1 and name.startswith("_") and self.depth < 6:
+            self.depth += 1
+            try:
+                return self.call_fn(getters[0], [base], {})
+            except Undecided:
+                return NotImplemented
+            finally:
+                self.depth -= 1
         return NotImplemented
 
     def _hook(self, fn, ev, call, args, kwargs):
@@ -312,6 +386,15 @@ class Runner:
                     return r
         if isinstance(recv, StandIn) and isinstance(f, ast.Attribute) and hasattr(recv, f.attr):
             return getattr(recv, f.attr)(*args, **kwargs)
+        if isinstance(recv, (StandIn, Obj)) and isinstance(f, ast.Attribute) and f.attr in ("__copy__", "__deepcopy__") \
+                and not tgs and not hasattr(recv, f.attr):
+            # x.__copy__() on a stand-in without its own copy method is copy(x), as the interpreter does for copy(x)
+            import copy as _copy
+            if self.user_hook:
+                r = self.user_hook(self, ev, call, "copy" if f.attr == "__copy__" else "deepcopy", None, [recv], {})
+                if r is not NotImplemented:
+                    return r
+            return _copy.copy(recv) if f.attr == "__copy__" else _copy.deepcopy(recv)
         if isinstance(recv, StandIn) and isinstance(f, ast.Name) and callable(recv):
             return recv(*args, **kwargs)
         if tgs:
